@@ -283,6 +283,7 @@ def handle (j : Json) : Json :=
        (if bodyActive && !skip && Body.BranchShift ctx s v then ["BranchShift"] else [])
      | _, _ => []) ++
     (if su.params.any (fun p => Params.DefaultReadsAsEmpty skip p st0) then ["DefaultReadsAsEmpty"] else []) ++
+    (if su.params.any (fun p => Params.EmptyArrayWritten skip p st0) then ["EmptyArrayWritten"] else []) ++
     (if noEnc then ["NoBodyEncoder"] else []) ++
     (if su.params.any (fun p => Params.ContentParamDefault skip p st0) then ["ContentParamDefault"] else [])
   let anyReq := fun (f : Stream.Scheme → Bool) => reqs.any (fun q => q.any f)
